@@ -193,7 +193,9 @@ fn c13_profile(r: &mut Rng) -> Profile {
     p.w_bstale = 0;
     p.w_bpolicy = 0;
     p.bad_connack_pct = 0;
-    p.keepalive_choices = vec![0];
+    // keep-alive traffic is cancelled too (cancellation takes no virtual time, so both runs agree on it)
+    p.keepalive_choices = vec![0, 0, 1, 2, 10];
+    p.w_advance = 3;
     p.ack_modes = vec![AckMode::Immediate, AckMode::Hold, AckMode::Never];
     p.fail_pcts = vec![0];
     p.longform_pcts = vec![0, 100];
@@ -222,6 +224,7 @@ fn det_policy(r: &mut Rng) -> IoPolicy {
         pend_flush: Pend::Always,
         pend_read: Pend::Always,
         read_chunks: vec![],
+        slow_write_us: 0,
     }
 }
 
@@ -525,6 +528,8 @@ pub struct C15;
 fn c15_profile(r: &mut Rng) -> Profile {
     let mut p = c13_profile(r);
     p.name = "fragment-twin";
+    p.keepalive_choices = vec![0];
+    p.w_advance = 0;
     p.w_bpublish = 16;
     p.w_bpubrel = 2;
     p.w_disconnect = 1;
@@ -593,7 +598,21 @@ fn keepalive_stalls(rng: &mut Rng, seed: u64, verbose: bool) -> CaseOut {
     let a = summarize(&alog, &aworld.borrow());
     for k in 0..3 {
         let mut d = Gapped { steps: steps.clone().into(), rng: Rng::new(rng.next()), queued: VecDeque::new(), last: None, retries: 0, ping_retries: 0, noise: vec![], gates: 0, gate_pct: 50, own_deadline: true };
-        let (blog, bworld) = run_case(&cfg, seed, &mut d, steps.len() * 60 + 64);
+        // every other variant also writes through a slow transport: partial writes with a pause
+        // between the pieces that outlasts the keep-alive send interval
+        let slow = k % 2 == 1;
+        let wpolicy = IoPolicy { write: *rng.pick(&[Chunk::One, Chunk::Fixed(3), Chunk::AltOneAll, Chunk::AllButOne]), slow_write_us: (ka as u64 * 600_000).min(2_000_000), ..IoPolicy::default() };
+        struct SlowWrites<'a>(&'a mut Gapped, Option<IoPolicy>);
+        impl Driver for SlowWrites<'_> {
+            fn next(&mut self, v: &View<'_>) -> Option<Step> {
+                let mut s = self.0.next(v)?;
+                if let (Step::Connect(c), Some(p)) = (&mut s, &self.1) {
+                    c.policy = p.clone();
+                }
+                Some(s)
+            }
+        }
+        let (blog, bworld) = run_case(&cfg, seed, &mut SlowWrites(&mut d, slow.then_some(wpolicy)), steps.len() * 60 + 64);
         let bw = bworld.borrow();
         let b = summarize(&blog, &bw);
         out.evaluations += 1;
@@ -605,6 +624,8 @@ fn keepalive_stalls(rng: &mut Rng, seed: u64, verbose: bool) -> CaseOut {
                 Ev::CPkt { conn, idx } if matches!(bw.conns[*conn].out.packets[*idx].pkt, CPacket::PingReq) => outstanding += 1,
                 Ev::Consumed { conn, idx } if matches!(bw.conns[*conn].in_pkts[*idx].pkt, Some(crate::refcodec::SPacket::PingResp)) => outstanding -= 1,
                 Ev::GateHit { .. } if outstanding > 0 => dead_peer_stall = true,
+                // (a pause of the slow transport while a PINGREQ is unanswered counts the same)
+                Ev::Time { from, to } if outstanding > 0 && to > from && slow => dead_peer_stall = true,
                 _ => {}
             }
         }
@@ -627,6 +648,10 @@ fn keepalive_stalls(rng: &mut Rng, seed: u64, verbose: bool) -> CaseOut {
         let dropped_by_client = bw.events.windows(2).filter(|w| matches!(w[0], Ev::GateHit { .. })).count();
         let inside = bw.events.iter().filter(|e| matches!(e, Ev::GateHit { conn, offset } if bw.conns[*conn].in_pkts.iter().any(|p| p.start < *offset && *offset < p.end))).count();
         let pings = bw.conns.iter().map(|c| c.out.packets.iter().filter(|p| matches!(p.pkt, CPacket::PingReq)).count()).sum::<usize>();
+        if slow {
+            let waits = bw.events.windows(2).filter(|w| matches!((&w[0], &w[1]), (Ev::Time { .. }, Ev::Io { kind: IoKind::Write, .. }))).count();
+            out.count("slow_partial_writes", waits as u64);
+        }
         out.count("stalls_hit", dropped_by_client as u64);
         out.count("stalls_inside_a_packet", inside as u64);
         out.count("pingreqs_sent_during_stalled_runs", pings as u64);
@@ -674,7 +699,7 @@ impl Check for C15 {
         if tier == Tier::Quick { 300 } else { 3000 }
     }
     fn required_counters(&self) -> Vec<&'static str> {
-        vec!["twins_compared", "chunkings_enumerated_exhaustively", "variants_with_split_packets", "stalls_inside_a_packet", "calls_repeated_after_a_stall", "keepalive_stall_variants"]
+        vec!["twins_compared", "chunkings_enumerated_exhaustively", "variants_with_split_packets", "stalls_inside_a_packet", "calls_repeated_after_a_stall", "keepalive_stall_variants", "slow_partial_writes"]
     }
     fn exhaustive(&self) -> bool {
         true
@@ -769,7 +794,7 @@ impl Check for C15 {
             let n = if tier == Tier::Quick { 6 } else { 12 };
             for _ in 0..n {
                 let pend = *rng.pick(&[Pend::Never, Pend::Always, Pend::Pct(30)]);
-                let p = IoPolicy { write: *rng.pick(&writes), read: *rng.pick(&reads), pend_write: pend, pend_flush: pend, pend_read: pend, read_chunks: vec![] };
+                let p = IoPolicy { write: *rng.pick(&writes), read: *rng.pick(&reads), pend_write: pend, pend_flush: pend, pend_read: pend, read_chunks: vec![], slow_write_us: 0 };
                 let name = format!("w{:?}-r{:?}-p{:?}", p.write, p.read, pend);
                 variants.push((p, None, name));
             }
@@ -780,7 +805,7 @@ impl Check for C15 {
         if !short_stream {
             let n = if tier == Tier::Quick { 3 } else { 6 };
             for k in 0..n {
-                let p = IoPolicy { write: Chunk::All, read: *rng.pick(&[Chunk::All, Chunk::One, Chunk::Rand]), pend_write: Pend::Never, pend_flush: Pend::Never, pend_read: Pend::Never, read_chunks: vec![] };
+                let p = IoPolicy { write: Chunk::All, read: *rng.pick(&[Chunk::All, Chunk::One, Chunk::Rand]), pend_write: Pend::Never, pend_flush: Pend::Never, pend_read: Pend::Never, read_chunks: vec![], slow_write_us: 0 };
                 variants.push((p, None, format!("gapped-{}", k)));
             }
         }
